@@ -274,6 +274,185 @@ def _nontrivial(c):
     return True
 
 
+# ------------------------------------------------------------------ large structured chains (LineChain.tla)
+
+LINE_INVS = ["ChainOK", "RangeOK", "PiStationary", "PinnedSources", "PinnedSinks", "InUnit", "FirstStep",
+             "MZeroOnSinks", "MFPTFirstStep", "LagLinear", "AllPairsFirstStep"]
+LINE_SIZES = {"quick": (999, 1000, 1001, 1200), "thorough": (999, 1000, 1001, 1200, 1999, 2000)}
+LINE_SMALL = {"quick": (2, 3, 4, 5), "thorough": (2, 3, 4, 5, 6, 7)}
+LINE_PATTERNS = [dict(wpat=[1, 2, 1, 3], spat=[0, 1, 2]), dict(wpat=[2, 1], spat=[1, 0, 0, 3, 1])]
+TOL_ALLPAIRS_LARGE = 1e-7     # all-pairs table of a chain with ~1000 states on a line: the fundamental matrix of a
+                              # chain that needs ~1e5 steps to relax loses 6 of the 16 digits (measured: 4e-10 with
+                              # exact populations, 2e-9 with populations=None); a wrong branch is wrong by O(1)
+LINE_CONTAINERS = ("dense", "dense-F", "csr", "csc", "lil", "coo", "dok", "csr_array", "lil_array")
+LINE_ALLPAIRS_CONTAINERS = ("dense", "dense-F", "csr", "lil", "dok")   # one 1000 x 1000 inverse each
+
+
+def line_placements(n, mode):
+    """(sources, sinks, columns) placements for a chain with n states (1-based): interior sets of several states,
+    neighbouring source and sink, boundary states, one far-away sink (long one-sided stretches)."""
+    if mode in ("committor", "flux"):
+        return [({3, n // 5, n // 5 + 1}, {40, n // 2, n // 2 + 2, n - 7}, set()),
+                ({n // 3, n - 1}, {1, 2, n // 3 + 1, 2 * n // 3}, set())]
+    if mode == "mfpt_sinks":
+        return [(set(), {40, n // 2, n // 2 + 2, n - 7}, set()), (set(), {n // 3}, set())]
+    return [(set(), set(), {1, 2, n // 3, n // 2, n - 1, n})]
+
+
+def line_cases(sizes, modes, lags, first_id=1):
+    cases = []
+    for n in sizes:
+        for mode in modes:
+            for k, (src, snk, cols) in enumerate(line_placements(n, mode)):
+                pat = LINE_PATTERNS[(k + len(cases)) % len(LINE_PATTERNS)]
+                cases.append(dict(id=first_id + len(cases), n=n, mode=mode, src=src, snk=snk, cols=cols,
+                                  lag=lags[len(cases) % len(lags)] if mode.startswith("mfpt") else (1, 1),
+                                  wov=[(n // 2, 5)] if k == 1 else [], sov=[(n // 4, 7)] if k == 1 else [],
+                                  pscale=(1, 1), **pat))
+    return cases
+
+
+def _tla_seq(x):
+    return "<<" + ", ".join(_tla_seq(y) if isinstance(y, (list, tuple)) else str(int(y)) for y in x) + ">>"
+
+
+def _tla_set(x):
+    return "{" + ", ".join(str(int(y)) for y in sorted(x)) + "}"
+
+
+def tla_line_case(c):
+    return ('[id |-> %d, n |-> %d, wpat |-> %s, spat |-> %s, wov |-> %s, sov |-> %s, src |-> %s, snk |-> %s, '
+            'cols |-> %s, lag |-> %s, mode |-> "%s", pscale |-> %s]'
+            % (c["id"], c["n"], _tla_seq(c["wpat"]), _tla_seq(c["spat"]), _tla_seq(c["wov"]), _tla_seq(c["sov"]),
+               _tla_set(c["src"]), _tla_set(c["snk"]), _tla_set(c["cols"]), _tla_seq(c["lag"]), c["mode"],
+               _tla_seq(c["pscale"])))
+
+
+def line_module(d, name, cases, small_ns=(), modes=(), lags=((1, 1),), base="LineChain", small_pat=None):
+    small_pat = small_pat or LINE_PATTERNS[0]
+    txt = ["---- MODULE %s ----" % name, "EXTENDS %s" % base,
+           "MCCases == {%s}" % ",\n            ".join(tla_line_case(c) for c in cases),
+           "MCSmallNs == %s" % _tla_set(small_ns),
+           "MCSmallW == %s" % _tla_seq(small_pat["wpat"]), "MCSmallS == %s" % _tla_seq(small_pat["spat"]),
+           "MCModes == {%s}" % ", ".join('"%s"' % m for m in modes),
+           "MCLags == {%s}" % ", ".join(_tla_seq(l) for l in lags), "===="]
+    with open(os.path.join(d, name + ".tla"), "w") as fh:
+        fh.write("\n".join(txt) + "\n")
+    return name
+
+
+LINE_CONSTANTS = dict(Cases="<- MCCases", SmallNs="<- MCSmallNs", SmallW="<- MCSmallW", SmallS="<- MCSmallS",
+                      Modes="<- MCModes", Lags="<- MCLags")
+LINE_MODES = ("committor", "mfpt_sinks", "mfpt_cols")
+
+
+def _line_jobs(ctx, d):
+    """one emitting single-worker TLC process per large size, one (with action coverage) for the small sizes in
+    which every placement of sources and sinks is enumerated"""
+    jobs = []
+    cfg = core.write_cfg(os.path.join(d, "line.cfg"), init="LInit", next_="LNext", invariants=LINE_INVS + ["EmitInv"],
+                         constants=dict(LINE_CONSTANTS, Emit="TRUE"))
+    nid = 1
+    for n in LINE_SIZES[ctx.tier]:
+        cases = line_cases([n], LINE_MODES, LAGS, first_id=nid)
+        nid += len(cases)
+        mod = line_module(d, "MCLine%d" % n, cases)
+        jobs.append(dict(module=mod, cfg=os.path.basename(cfg), cwd=d, workers=1, timeout=1800, java_opts=SMALL_HEAP,
+                         label="line chains n=%d (%d cases), check+emit" % (n, len(cases))))
+    mod = line_module(d, "MCLineSmall", [], small_ns=LINE_SMALL[ctx.tier], modes=LINE_MODES, lags=LAGS[:2])
+    jobs.append(dict(module=mod, cfg=os.path.basename(cfg), cwd=d, workers=1, timeout=1800, java_opts=SMALL_HEAP,
+                     coverage=True, label="line chains n in %s, every placement, check+emit+action coverage"
+                     % (list(LINE_SMALL[ctx.tier]),)))
+    return jobs
+
+
+def big(digits):
+    """BigNat.tla: little-endian digits in base 4096"""
+    v = 0
+    for k, x in enumerate(digits):
+        v += int(x) << (12 * k)
+    return v
+
+
+def br_vec(v):
+    """sequence of BigNat rationals [[digits], [digits]] -> float vector (Python's int / int is correctly rounded)"""
+    return np.array([big(a) / big(b) for a, b in v], dtype=float)
+
+
+def line_matrix(c):
+    """T = X / rowsum(X) for the tridiagonal symmetric weight matrix X of the case (w[k]: edge k -- k+1, s: self)"""
+    n, w, s = c["n"], c["w"], c["s"]
+    X = np.zeros((n, n))
+    X[np.arange(n), np.arange(n)] = s
+    X[np.arange(n - 1), np.arange(1, n)] = w[:n - 1]
+    X[np.arange(1, n), np.arange(n - 1)] = w[:n - 1]
+    return X / X.sum(axis=1)[:, None]
+
+
+def line_containers(T, names=LINE_CONTAINERS):
+    import scipy.sparse as sp
+    make = {"dense": lambda: T.copy(), "dense-F": lambda: np.asfortranarray(T), "csr": lambda: sp.csr_matrix(T),
+            "csc": lambda: sp.csc_matrix(T), "lil": lambda: sp.lil_matrix(T), "coo": lambda: sp.coo_matrix(T),
+            "dok": lambda: sp.dok_matrix(T), "csr_array": lambda: sp.csr_array(T),
+            "lil_array": lambda: sp.lil_array(T)}
+    for name in names:
+        yield name, make[name]()
+
+
+def _columns_mismatch(got, cols, cv, n, tol):
+    g = np.asarray(got, dtype=float)
+    if g.shape != (n, n):
+        return {"got_shape": list(g.shape), "expected_shape": [n, n]}
+    for s, col in zip(cols, cv):
+        idx = rel_mismatch(g[:, s - 1], col, tol)
+        if idx is not None:
+            d = _describe(g[:, s - 1], col, idx)
+            d["column"] = s - 1
+            return d
+    return None
+
+
+def replay_line_case(c):
+    """Replays one CASE of LineChain.tla (committors / mfpts to a sink set / columns of the all-pairs table)."""
+    from enspara import tpt
+    n, mode = c["n"], c["mode"]
+    T = line_matrix(c)
+    src = [x - 1 for x in c["src"]]
+    snk = [x - 1 for x in c["snk"]]
+    lag = c["lag"][0] / c["lag"][1]
+    large = n > 64
+    call = _Caller()
+    names = c.get("containers") or (LINE_ALLPAIRS_CONTAINERS if mode == "mfpt_cols" else LINE_CONTAINERS)
+    if mode == "committor":
+        q = br_vec(c["q"])
+    elif mode == "mfpt_sinks":
+        m, pops = br_vec(c["m"]), br_vec(c["pi"])
+    else:
+        cv, pops = [br_vec(v) for v in c["cv"]], br_vec(c["pi"])
+        tol = TOL_ALLPAIRS_LARGE if large else TOL
+    for ci, (cont, M) in enumerate(line_containers(T, names)):
+        fname, form = FORMS[(c["id"] + ci) % len(FORMS)]
+        tag = "n=%d %s" % (n, fname)
+        if mode == "committor":
+            f_src, f_snk = form(src), form(snk)
+            call("committors", cont, tag, lambda: tpt.committors(M, f_src, f_snk), [M, f_src, f_snk], q, scale=1.0)
+        elif mode == "mfpt_sinks":
+            f_snk = form(snk)
+            call("mfpts-sinks", cont, tag + " lag=%s pops given" % lag,
+                 lambda: tpt.mfpts(M, sinks=f_snk, populations=pops, lagtime=lag), [M, f_snk, pops], m, scale=lag)
+            if cont == "dense" or not large:
+                call("mfpts-sinks", cont, tag + " lag=%s pops=None" % lag,
+                     lambda: tpt.mfpts(M, sinks=f_snk, lagtime=lag), [M, f_snk], m, scale=lag)
+        else:
+            chk = lambda got: _columns_mismatch(got, c["cols"], cv, n, tol)     # noqa: E731
+            call("mfpts-all", cont, "n=%d lag=%s pops given" % (n, lag),
+                 lambda: tpt.mfpts(M, populations=pops, lagtime=lag), [M, pops], None, check=chk)
+            if cont == "dense" or not large:
+                call("mfpts-all", cont, "n=%d lag=%s pops=None" % (n, lag), lambda: tpt.mfpts(M, lagtime=lag), [M],
+                     None, check=chk)
+    return call.bad
+
+
 # ------------------------------------------------------------------ TLC jobs (A)
 
 def _tla_matrix(a):
@@ -547,14 +726,44 @@ def _violation(ctx, record, key):
 
 
 def _report(ctx, c, bad):
+    line = c.get("family") == "line"
     for b in bad:
+        how = ("T = X / rowsum(X), X tridiagonal symmetric with X[k][k+1] = w[k], X[i][i] = s[i] (states 1-based in "
+               "the case, numbers are base-4096 digit lists [numerator, denominator]); tpt.%s vs the exact value "
+               "printed by LineChain.tla" if line else
+               "T = A/D (states 1-based in the case); tpt.%s vs the exact value printed by Committor.tla")
         _violation(ctx, {"kind": "replay", "case": c, "call": b["call"], "detail": b["detail"],
-                         "how": "T = A/D (states 1-based in the case); tpt.%s vs the exact value printed by "
-                                "Committor.tla" % b["call"].split()[0]},
+                         "how": how % b["call"].split()[0]},
                    key=b["key"])
 
 
+def _replay_line_results(ctx, results, jobs):
+    """replays the CASE lines of the LineChain.tla jobs; returns the number of cases"""
+    ncases = 0
+    for r, j in zip(results, jobs):
+        if j.get("coverage") and not r.coverage:
+            raise core.MachineryError("no coverage statistics from %s" % j["label"])
+        cases = [p for t, p in r.prints if t == "CASE"]
+        if not cases:
+            raise core.MachineryError("no CASE lines emitted by %s" % j["label"])
+        ncases += len(cases)
+        large = any(c["n"] > 64 for c in cases)
+        res = core.pmap(replay_line_case, cases, chunk=1 if large else 50)
+        for c, bad in zip(cases, res):
+            nt = _nontrivial(c) if c["mode"] != "mfpt_cols" else True
+            key = ("line", c["n"], str(c["w"][:12]), str(c["s"][:12]), c["mode"], str(c["src"]), str(c["snk"]),
+                   str(c["cols"]), str(c["lag"]))
+            ctx.case(key if nt else None, sample=None)
+            ctx.traces += 1
+            _report(ctx, c, bad)
+    return ncases
+
+
 def run(ctx):
+    ctx.assumptions += ["large chains (LineChain.tla): reversible nearest-neighbour chains with 999..1200 states, "
+                        "closed-form values checked by TLC against the first-step equations; all-pairs tables of "
+                        "these are compared at %g relative (selected columns), everything else at %g relative per "
+                        "entry + %g of the largest entry" % (TOL_ALLPAIRS_LARGE, TOL, FLOOR * TOL)]
     ctx.rule = ("(A) TLC enumerates every irreducible integer chain A/D in scope x mode (committors: every disjoint "
                 "non-empty source/sink pair; mfpts to sinks: every non-empty sink set x lag; all-pairs: lag); "
                 "distinct by (A, mode, sources, sinks, lag); non-trivial when at least one state is neither source "
@@ -570,7 +779,9 @@ def run(ctx):
     import time
     t0 = time.time()
     jobs, meta = _jobs(ctx, d, rng)
-    results = ctx.tlc_parallel(jobs, max_par=16)
+    ljobs = [] if os.environ.get("VERIF_SMOKE") else _line_jobs(ctx, d)
+    results = ctx.tlc_parallel(ljobs + jobs, max_par=16)
+    line_results, results = results[:len(ljobs)], results[len(ljobs):]
     t1 = time.time()
     _run_traces(ctx, d, rng)
     t2 = time.time()
@@ -593,7 +804,10 @@ def run(ctx):
             ctx.traces += 1
             _report(ctx, c, bad)
     ctx.notes["replayed_cases"] = ncases
-    ctx.notes["wall_s_tlc_traces_replay"] = [round(t1 - t0, 1), round(t2 - t1, 1), round(time.time() - t2, 1)]
+    t3 = time.time()
+    ctx.notes["replayed_line_cases"] = _replay_line_results(ctx, line_results, ljobs)
+    ctx.notes["wall_s_line_replay"] = round(time.time() - t3, 1)
+    ctx.notes["wall_s_tlc_traces_replay"] = [round(t1 - t0, 1), round(t2 - t1, 1), round(t3 - t2, 1)]
     if any("sample" in sc or sc.get("only_emit") or sc.get("multi") or sc.get("emit", 0) < sc.get("parts", 0)
            for sc in SCOPES[ctx.tier]):
         ctx.exhaustive = False       # model checking is exhaustive per scope; replay covers a part of some scopes
@@ -604,8 +818,9 @@ def replay(ctx, path):
     b = core.build_repo()
     core.activate(b)
     if rec.get("kind") == "replay":
-        bad = replay_case(rec["case"])
-        ctx.case(("replay",), sample=rec["case"])
+        line = rec["case"].get("family") == "line"
+        bad = replay_line_case(rec["case"]) if line else replay_case(rec["case"])
+        ctx.case(("replay",), sample=None if line else rec["case"])
         _report(ctx, rec["case"], bad)
     else:
         print("replay of %s records re-runs the check" % rec.get("kind"))
